@@ -232,7 +232,7 @@ void run_C13(void) {
             for (uint64_t ys = 0; ys <= (aop_binary(op) ? smax : 0); ys++) {
               ctr++;
               uint64_t h = mix64(ctr * 31 + op);
-              int take = N <= 16 ? (th || cfg == 0 || (h % 3) == 0) : (N <= 1024 ? (h % (th ? 2 : 8)) == 0 : (h % (th ? 6 : 40)) == 0);
+              int take = N <= 16 ? 1 : (N <= 1024 ? (h % (th ? 1 : 3)) == 0 : (h % (th ? 3 : 20)) == 0);
               if (!take) continue;
               const int isrot = (op == A_ROTATE || op == A_AUTO || op == A_BIG_ROTATE || op == A_BIG_AUTO);
               for (int pc = 0; pc < (isrot ? 4 : 1); pc++) vec_case(op, N, mt, cfg != 1, rs, xs, ys, (unsigned)(h >> 8) % 4, (unsigned)(h >> 12) % 4, pc, 0);
